@@ -187,7 +187,7 @@ def ensure_harness(name, kind="rcfork", extra_flags=(), source=None):
                 src = p
     if not src:
         raise SystemExit("no source for harness " + name)
-    h = sha(file_hash([src]), common_hash(), kind, " ".join(extra_flags))[:16]
+    h = sha(file_hash([src]), common_hash(), kind, " ".join(extra_flags), "no-enum-san2")[:16]
     out = os.path.join(keydir(), "bin", "%s-%s" % (name, h))
     if os.path.exists(out):
         return out
@@ -204,6 +204,10 @@ def ensure_harness(name, kind="rcfork", extra_flags=(), source=None):
         t0 = time.time()
         base = ["clang++", "-std=gnu++17"] if cxx else ["clang"]
         base += ["-g", "-O1", "-fno-omit-frame-pointer", "-I" + VERIF + "/src/common", "-D" + GUARD + "=1"] + inc + list(extra_flags)
+        late = []
+        if cxx and kind not in ("tsan", "rcfork-tsan"):
+            # hwloc's inline helpers document "(hwloc_obj_cache_type_t) -1"; loading such a value is only undefined in C++ (the harness language), not in C
+            late = ["-fno-sanitize=enum"]   # must come after -fsanitize=undefined
         if kind == "rcfork":
             cmd = base + SAN_COMMON.split() + [src, eng, lib, "-lrapidcheck"] + LINK_LIBS.split()
         elif kind == "fuzz":
@@ -214,7 +218,7 @@ def ensure_harness(name, kind="rcfork", extra_flags=(), source=None):
             cmd = base + ["-fsanitize=thread", "-DVERIF_TSAN=1", src, eng, lib, "-lrapidcheck"] + LINK_LIBS.split()
         else:
             cmd = base + SAN_COMMON.split() + [src, lib] + LINK_LIBS.split()
-        rc, o = run(cmd + ["-o", out + ".tmp"])
+        rc, o = run(cmd + late + ["-o", out + ".tmp"])
         if rc:
             log("BUILD FAILED %s:\n%s" % (src, o[-6000:]))
             raise SystemExit(3)
